@@ -84,7 +84,7 @@ impl<'tcx> Dumper<'tcx> {
                     let items: Vec<J> = tcx
                         .associated_item_def_ids(did)
                         .iter()
-                        .map(|i| J::s(tcx.item_name(*i).to_string()))
+                        .map(|i| J::s(tcx.opt_item_name(*i).map(|n| n.to_string()).unwrap_or_else(|| "<anon>".to_string())))
                         .collect();
                     traits.push(
                         J::obj()
@@ -247,7 +247,7 @@ impl<'tcx> Dumper<'tcx> {
             .iter()
             .map(|i| {
                 J::obj()
-                    .put_s("name", tcx.item_name(*i).to_string())
+                    .put_s("name", tcx.opt_item_name(*i).map(|n| n.to_string()).unwrap_or_else(|| "<anon>".to_string()))
                     .put_s("path", self.key(*i))
                     .put_s("kind", format!("{:?}", tcx.def_kind(*i)))
                     .done()
